@@ -912,7 +912,7 @@ def _fast_equal_sound(P, R, rule):
 # =================================================================================================================== R02-f
 def r02f(P, R):
     """only possible (type, variables) branches: type-condition filter and skip/include tables"""
-    _sections(P, R, "R02-f", _f_condition_table, _f_sites, _f_skip_table, _f_variables, _f_possible_types)
+    _sections(P, R, "R02-f", _f_condition_table, _f_sites, _f_skip_table, _f_variables, _f_skip_coverage, _f_possible_types)
 
 
 def _f_condition_table(P, R):
@@ -1160,6 +1160,69 @@ def _f_variables(P, R, rule="R02-f"):
     lits = {x.get("v") for x in f.walk() if (x.get("k") == "Lit" and x.get("lk") == "str") or (x.get("k") == "PatExpr" and x.get("lk") == "str")}
     _tri(R, rule, "variables-both-directives", True if {"skip", "include"} <= lits else None, "@skip and @include are both looked at",
          und="%s mentions the literals %s: how @skip / @include are recognised is not decided" % (f0.path, sorted(l for l in lits if isinstance(l, str))[:6]), loc=f0.loc())
+
+
+def _f_skip_coverage(P, R, rule="R02-f"):
+    """every variable the skip test can be asked about on a branch is enumerated for that branch.  Two readings that must agree: (E) does the
+    enumeration leave out the variables of a fragment whose type condition the filter rejects?  (U) is the skip test ever evaluated on the
+    directives of a fragment on a path on which the filter rejects that fragment?  E and U together mean a look-up of a variable the
+    branch was never split on."""
+    f0 = _role(P, OT + "type_printer::get_boolean_variables", ["QueryTypePrinterContext", "SelectionSet"], "Vec<&")
+    vis = _vis(P)
+    cfc = _role(P, OT + "type_printer::check_fragment_condition", ["QueryTypePrinterContext", "ObjectDefinition", "str"], "bool")
+    key = "variables-cover-skip-tests"
+
+    def hook(ab, args):
+        v = _Opq("$v")
+        ab.event("term", "v", None, v)
+        sel = _t_inline_selection(P, _Opq("condition"), [_t_directive(P, "skip", ("var", v))])
+        for c in [a for a in args if isinstance(_d(a), _Clo)]:
+            ab.apply(c, [sel])
+        return ()
+    try:
+        paths = _Abs(P, [vis.path, cfc.path], hooks={vis.path: hook}).explore(lambda ab: ab.call(f0.path, _params(f0, [])))
+    except _Unknown as e:
+        R.undecided(rule, key, "the abstract evaluation of %s does not decide whether the enumeration depends on the type-condition filter (%s)" % (f0.path, e), loc=f0.loc())
+        return
+    except (KeyError, IndexError, TypeError, AttributeError, RecursionError, ValueError) as e:
+        R.undecided(rule, key, "the abstract evaluation of %s does not decide this (evaluator: %r)" % (f0.path, e), loc=f0.loc())
+        return
+    seen = filtered = 0
+    for st, v, evs in paths:
+        t = _terms(evs)
+        if st != "ok" or "v" not in t or not isinstance(_d(v), list):
+            continue
+        seen += 1
+        rejected = any(ev[0] == "assume" and ev[2] is False and any(x[0] == "call" and x[1] == cfc.path for x in ev[1]) and ("eq",) not in ev[1] for ev in evs)
+        if rejected and not any(_d(x) is t["v"] or x is t["v"] for x in _d(v)):
+            filtered += 1
+    if not seen:
+        R.undecided(rule, key, "%s does not hand a closure to the visitor; whether it depends on the type-condition filter is not read" % f0.path, loc=f0.loc())
+        return
+    if not filtered:
+        R.holds(rule, key, "table: the enumeration does not depend on type conditions: every variable of every fragment is in every branch", loc=f0.loc())
+        return
+    G = _gf_paths(P, R, rule, [key])
+    if G is None:
+        return
+    gf, gpaths, names = G
+    FD = {("field", A + "selection_set::FragmentSpread", "directives"), ("field", A + "selection_set::InlineFragment", "directives")}
+    tested = loose = 0
+    for st, v, evs in gpaths:
+        calls = [ev for ev in evs if ev[0] == "call" and ev[1] == names["csd"] and FD & set().union(*[_origin(a) for a in ev[2]] or [set()])]
+        if not calls:
+            continue
+        tested += 1
+        if any(ev[0] == "assume" and ev[2] is False and any(x[0] == "call" and x[1] == names["cfc"] for x in ev[1]) and ("eq",) not in ev[1] for ev in evs):
+            loose += 1
+    if loose:
+        R.violated(rule, key, "paths: %s leaves out the @skip/@include variables of a fragment whose type condition does not apply to the branch's object, but %s "
+                   "evaluates the skip test on a fragment's directives on a path on which the type-condition filter rejects that fragment: the test looks up a "
+                   "variable the branch was never split on — generation panics on a valid document (or, with a lenient look-up, keeps the field)"
+                   % (f0.path, gf.path), loc=gf.loc())
+    else:
+        _tri(R, rule, key, True if tested else None, "paths: the enumeration follows the type-condition filter, and the skip test of a fragment runs only where the filter "
+             "accepts the fragment", und="no abstract path of %s evaluates the skip test on a fragment's directives" % gf.path, loc=gf.loc())
 
 
 def _f_enumeration_table(P, R, rule, f0, vis):
@@ -1591,6 +1654,12 @@ def _t_directive(P, name, value):
 
 def _t_field_selection(P, directives):
     return _t_var(P, A + "selection_set::Selection", "Field", [_t_obj(P, A + "selection_set::Field", {"directives": list(directives)})])
+
+
+def _t_inline_selection(P, cond, directives):
+    """`... on <cond> <directives> { .. }` with an undetermined condition name and selection set"""
+    return _t_var(P, A + "selection_set::Selection", "InlineFragment",
+                  [_t_obj(P, A + "selection_set::InlineFragment", {"type_condition": _some(_t_ident(P, cond)), "directives": list(directives)})])
 
 
 def _t_branch(P, type_name, unaliased, aliased):
